@@ -29,6 +29,7 @@ func checkC17(c *chk.Ctx) {
 		"R17c readers are woken (UpdatedCommitOffset) only after the batch was committed",
 		"R17d the notification key is fixed-width zero-padded hex so that key order is offset order; the scan format derives from the same prefix; the dispatcher resumes at last delivered offset + 1 and the initial dummy batch carries the commit offset it resumes from",
 		"R17e the client maps every notification type",
+		"R17h the client asks to resume after the last offset it received whenever it has received one: the request's start offset can only be absent while the stored last offset cannot be a real offset (evaluated for offsets 0, 1, 7, 2^40)",
 		"R17g retention trimming deletes notification batches only up to an offset found by a search that starts at an offset whose timestamp was read and found expired",
 		"R17f notifications are switched on/off with exactly the options that were just persisted with the term (or read back at start-up)",
 	}
@@ -44,6 +45,7 @@ func checkC17(c *chk.Ctx) {
 	ruleR17e(h)
 	ruleR17f(h)
 	ruleR17g(h)
+	ruleR17h(h)
 }
 
 func ruleR17aOffset(h *H) {
@@ -581,4 +583,212 @@ func ruleR17g(h *H) {
 	if n == 0 {
 		h.Anchor(rule, "the expiry search call in the notifications trimmer")
 	}
+}
+
+// ruleR17h: a subscriber that reconnects (leader change, broken stream) sends the offset
+// of the last batch it received; the leader then replays everything after it. Without a
+// start offset the leader positions the subscriber at its current commit offset, i.e. all
+// batches committed while the stream was down are skipped. Offsets start at 0, so the
+// start offset may only be left out while the stored value is not an offset (>= 0).
+func ruleR17h(h *H) {
+	const rule = "R17h"
+	h.Rule(rule, "K4", "in the client, the StartOffsetExclusive of a NotificationsRequest cannot be nil when the field it is taken from holds an offset >= 0 (the branch conditions on that field are evaluated for 0, 1, 7 and 2^40)", 1)
+	n := 0
+	for _, fn := range h.P.Funcs {
+		if ir.RelPkg(ir.PkgPathOf(fn)) != "oxia" || fn.Blocks == nil {
+			continue
+		}
+		fn := fn
+		ir.Instrs(fn, func(in ssa.Instruction) {
+			st, ok := in.(*ssa.Store)
+			if !ok {
+				return
+			}
+			r, isF := ir.FieldAddrOf(st.Addr)
+			if !isF || r.Struct == nil || r.Struct.Obj().Name() != "NotificationsRequest" || r.Field != "StartOffsetExclusive" {
+				return
+			}
+			n++
+			h.Fn(ir.FuncName(fn))
+			name := fmt.Sprintf("resume offset of notifications request #%d in %s", n, ir.FuncName(fn))
+			src, vfn := st.Val, fn
+			// the value may come out of an extracted helper with one result
+			if c, isCall := ir.Canon(src).(*ssa.Call); isCall {
+				if callee := c.Call.StaticCallee(); callee != nil && ir.InRepo(callee) && callee.Blocks != nil && callee.Signature.Results().Len() == 1 {
+					var rets []ssa.Value
+					ir.Instrs(callee, func(x ssa.Instruction) {
+						if ret, isRet := x.(*ssa.Return); isRet {
+							rets = append(rets, ir.ReturnValues(ret)[0])
+						}
+					})
+					if len(rets) == 1 {
+						src, vfn = rets[0], callee
+						h.Fn(ir.FuncName(callee))
+					} else if len(rets) > 1 {
+						src, vfn = nil, callee
+						ok, why := resumeReturnsOK(callee, rets)
+						h.Verdict(ok, rule, name, h.pos(in), "the start offset is only left out while no offset was received", why)
+						return
+					}
+				}
+			}
+			ok, why := resumeValueOK(vfn, src)
+			h.Verdict(ok, rule, name, h.pos(in), "the start offset is only left out while no offset was received", why)
+		})
+	}
+	if n == 0 {
+		h.Anchor(rule, "store to NotificationsRequest.StartOffsetExclusive in package oxia")
+	}
+}
+
+var resumeProbes = []int64{0, 1, 7, 1 << 40}
+
+const resumeWhy = "a subscriber whose last received offset is %d reconnects without a start offset: the leader positions it at its current commit offset and every batch committed while the stream was down is lost"
+
+// trackedSource: the int64 cell whose address is sent (a field of a client struct, or a
+// local copy of one); returns a predicate recognising reads of it.
+func trackedSource(leaves []ssa.Value) func(ssa.Value) bool {
+	for _, l := range leaves {
+		switch x := ir.Canon(l).(type) {
+		case *ssa.FieldAddr:
+			ref, _ := ir.FieldAddrOf(x)
+			return func(v ssa.Value) bool {
+				r, ok := ir.FieldLoadOf(ir.Canon(v))
+				return ok && r.Struct != nil && ref.Struct != nil && r.Struct.Obj() == ref.Struct.Obj() && r.Field == ref.Field
+			}
+		case *ssa.Alloc:
+			// a local copy: its stored value must be the field's load
+			var inner func(ssa.Value) bool
+			if rs := x.Referrers(); rs != nil {
+				for _, u := range *rs {
+					if s, ok := u.(*ssa.Store); ok && s.Addr == x {
+						if r, isF := ir.FieldLoadOf(ir.Canon(s.Val)); isF && r.Struct != nil {
+							ref := r
+							inner = func(v ssa.Value) bool {
+								r2, ok := ir.FieldLoadOf(ir.Canon(v))
+								return ok && r2.Struct != nil && r2.Struct.Obj() == ref.Struct.Obj() && r2.Field == ref.Field
+							}
+						}
+					}
+				}
+			}
+			return func(v ssa.Value) bool {
+				if u, ok := ir.Canon(v).(*ssa.UnOp); ok && u.Op == token.MUL && u.X == x {
+					return true
+				}
+				return inner != nil && inner(v)
+			}
+		}
+	}
+	return nil
+}
+
+func evalCmpAt(c ir.Cmp, v int64) (bool, bool) {
+	k, ok := c.R.(*ssa.Const)
+	if !ok || k.Value == nil {
+		return false, false
+	}
+	kv := k.Int64()
+	switch c.Op {
+	case token.LSS:
+		return v < kv, true
+	case token.LEQ:
+		return v <= kv, true
+	case token.GTR:
+		return v > kv, true
+	case token.GEQ:
+		return v >= kv, true
+	case token.EQL:
+		return v == kv, true
+	case token.NEQ:
+		return v != kv, true
+	}
+	return false, false
+}
+
+func resumeBlocked(fn *ssa.Function, isRead func(ssa.Value) bool, v int64) map[ir.Edge]bool {
+	return ir.EdgesWhere(fn, func(c ir.Cmp) bool {
+		if !isRead(c.L) {
+			return false
+		}
+		holds, ok := evalCmpAt(c, v)
+		return ok && !holds
+	})
+}
+
+func resumeValueOK(fn *ssa.Function, val ssa.Value) (bool, string) {
+	switch x := ir.Canon(val).(type) {
+	case *ssa.Const:
+		if x.IsNil() {
+			return false, "the request never carries a start offset: every reconnection loses the batches committed meanwhile"
+		}
+	case *ssa.FieldAddr, *ssa.Alloc:
+		return true, ""
+	case *ssa.Phi:
+		var leaves []ssa.Value
+		for _, e := range x.Edges {
+			if c, ok := e.(*ssa.Const); !ok || !c.IsNil() {
+				leaves = append(leaves, e)
+			}
+		}
+		isRead := trackedSource(leaves)
+		if isRead == nil {
+			return false, "the source of the start offset is not recognised (not the address of a field or of a local copy of one)"
+		}
+		for _, v := range resumeProbes {
+			blocked := resumeBlocked(fn, isRead, v)
+			for i, e := range x.Edges {
+				c, ok := e.(*ssa.Const)
+				if !ok || !c.IsNil() {
+					continue
+				}
+				p := x.Block().Preds[i]
+				if blocked[ir.Edge{From: p, To: x.Block()}] {
+					continue
+				}
+				reach := p == fn.Blocks[0]
+				if !reach && len(p.Instrs) > 0 {
+					reach, _ = ir.Reach(ir.Search{Fn: fn, Blocked: blocked}, ir.Is(p.Instrs[0]))
+				}
+				if reach {
+					return false, fmt.Sprintf(resumeWhy, v)
+				}
+			}
+		}
+		return true, ""
+	}
+	return false, "the start offset is computed in a way this rule does not recognise (" + ir.Describe(val) + ")"
+}
+
+// resumeReturnsOK: the helper form — `return nil` must be unreachable for every real offset.
+func resumeReturnsOK(fn *ssa.Function, rets []ssa.Value) (bool, string) {
+	var leaves []ssa.Value
+	for _, r := range rets {
+		if c, ok := r.(*ssa.Const); !ok || !c.IsNil() {
+			leaves = append(leaves, r)
+		}
+	}
+	isRead := trackedSource(leaves)
+	if isRead == nil {
+		return false, "the source of the start offset is not recognised (not the address of a field or of a local copy of one)"
+	}
+	for _, v := range resumeProbes {
+		blocked := resumeBlocked(fn, isRead, v)
+		bad := false
+		ir.Instrs(fn, func(x ssa.Instruction) {
+			ret, ok := x.(*ssa.Return)
+			if !ok {
+				return
+			}
+			if c, isC := ir.ReturnValues(ret)[0].(*ssa.Const); isC && c.IsNil() {
+				if reach, _ := ir.Reach(ir.Search{Fn: fn, Blocked: blocked}, ir.Is(ret)); reach {
+					bad = true
+				}
+			}
+		})
+		if bad {
+			return false, fmt.Sprintf(resumeWhy, v)
+		}
+	}
+	return true, ""
 }
